@@ -7,11 +7,14 @@
   * acceptance of the result by the checked constructor.  Since repair d46c983 `deduce` divides `(b, d, u)` by
     `s = b + d + u` before the checked constructor; `s = bI + dI + uI` whatever the correction term (`ay k + (1-ay) k = k`
     cancels), which is 1 when antecedent and conditionals add up to 1 (`mixq_sum`): one lifting step `BOp.norm_one`
-    (`deduce_fin_of_K`), the closed forms are the ones of the un-normalised operator.
+    (`deduce_fin_of_K`), the closed forms are the ones of the un-normalised operator.  Since repair cf81fd9 the belief and
+    the disbelief are clamped at zero before that division; on the domain both are `≥ 0` (`res_nonneg`), so the clamp is the
+    identity (`XQ.clamp_fin_nonneg`); `deduce_notNeg` / `deduce_ok_wf`: what the clamp guarantees for ALL operands.
   No property statements here.
 -/
 import SLV.Props.C10
 import SLV.Refine.C19Lemmas
+import SLV.Refine.ClampLemmas
 import Mathlib.Order.Lattice
 import Mathlib.Algebra.Order.Field.Basic
 
@@ -442,10 +445,12 @@ end branches
 
 /-! ### lift of `deduce` -/
 
-/-- `deduce` on finite inputs, given the value of the correction term `K` and `bI + dI + uI = 1` (then the normaliser
-    `s = (bI - ay K) + (dI - (1-ay) K) + (uI + K)` of repair d46c983 is 1 for every `K`) -/
+/-- `deduce` on finite inputs, given the value of the correction term `K`, `bI + dI + uI = 1` (then the normaliser
+    `s = (bI - ay K) + (dI - (1-ay) K) + (uI + K)` of repair d46c983 is 1 for every `K`) and the un-clamped belief
+    `bI - ay K` and disbelief `dI - (1-ay) K` non-negative (then the clamps of repair cf81fd9 are the identity) -/
 theorem deduce_fin_of_K {K : ℚ}
     (hs : mixq b d u a b0 b1 + mixq b d u a d0 d1 + mixq b d u a u0 u1 = 1)
+    (hb : 0 ≤ mixq b d u a b0 b1 - ay * K) (hd : 0 ≤ mixq b d u a d0 d1 - (1 - ay) * K)
     (hK : (BOp.deduceK (liftB (f := f) b d u a) (liftS b0 d0 u0) (liftS b1 d1 u1) (XQ.fin ay)).1
       = XQ.fin K) :
     BOp.deduce (liftB (f := f) b d u a) (liftS b0 d0 u0) (liftS b1 d1 u1) (XQ.fin ay)
@@ -456,7 +461,8 @@ theorem deduce_fin_of_K {K : ℚ}
     linarith
   rw [← BOp.norm_one hs']
   unfold BOp.deduce
-  simp only [hK, XQ.one_def, XQ.sub_fin, XQ.mul_fin, XQ.add_fin, mixq]
+  unfold mixq at hb hd
+  simp only [hK, XQ.one_def, XQ.sub_fin, XQ.mul_fin, XQ.add_fin, XQ.clamp_fin_nonneg _ hb, XQ.clamp_fin_nonneg _ hd, mixq]
 
 /-- `deduce` is accepted and returns the closed form for EVERY well-formed antecedent (absolute, dogmatic, vacuous,
     `a = 0`, `a = 1`, `P = 0`, `P = 1` included), well-formed conditionals and `0 < ay < 1` -/
@@ -466,8 +472,8 @@ theorem deduce_ok' (hx : BWF b d u a) (h0 : SWF3 b0 d0 u0) (h1 : SWF3 b1 d1 u1) 
               XQ.fin (mixq b d u a d0 d1 - (1 - ay) * Kq u a b0 d0 b1 d1 ay),
               XQ.fin (mixq b d u a u0 u1 + Kq u a b0 d0 b1 d1 ay), XQ.fin ay⟩,
         (BOp.deduceK (liftB (f := f) b d u a) (liftS b0 d0 u0) (liftS b1 d1 u1) (XQ.fin ay)).2) := by
-  rw [deduce_fin_of_K (mixq_sum hx.hs h0.hs h1.hs) (deduceK_fst' hx.hu hy0 hy1)]
   have w := res_bwf hx h0 h1 hy0 hy1
+  rw [deduce_fin_of_K (mixq_sum hx.hs h0.hs h1.hs) w.hb w.hd (deduceK_fst' hx.hu hy0 hy1)]
   rw [BOp.tryNew_fin_ok w.hb w.hd w.hu w.hs w.ha0 w.ha1]
 
 /-- on the open domain `deduce` is accepted and returns the closed form -/
@@ -477,8 +483,8 @@ theorem deduce_ok (h : Dom14 b d u a b0 d0 u0 b1 d1 u1 ay) :
               XQ.fin (mixq b d u a d0 d1 - (1 - ay) * Kq u a b0 d0 b1 d1 ay),
               XQ.fin (mixq b d u a u0 u1 + Kq u a b0 d0 b1 d1 ay), XQ.fin ay⟩,
         (BOp.deduceK (liftB (f := f) b d u a) (liftS b0 d0 u0) (liftS b1 d1 u1) (XQ.fin ay)).2) := by
-  rw [deduce_fin_of_K (mixq_sum h.x.hs h.c0.hs h.c1.hs) (deduceK_fst h)]
   have w := res_bwf h.x h.c0 h.c1 h.hy0 h.hy1
+  rw [deduce_fin_of_K (mixq_sum h.x.hs h.c0.hs h.c1.hs) w.hb w.hd (deduceK_fst h)]
   rw [BOp.tryNew_fin_ok w.hb w.hd w.hu w.hs w.ha0 w.ha1]
 
 /-- a branch lemma for `deduceK` plus the closed form of `Kq` in that branch give the full statement
@@ -563,5 +569,86 @@ theorem Kq_swap_y : Kq u a d0 b0 d1 b1 (1 - ay) = Kq u a b0 d0 b1 d1 ay := by
   · rw [Kq_II hb hd, Kq_III hd hb, e, min_comm]
   · rw [Kq_III hb hd, Kq_II hd hb, e, min_comm]
 
+
+/-! ### repair cf81fd9: what the clamps of `b` and `d` guarantee for ALL operands (no well-formedness, no finiteness) -/
+
+theorem XQ.inUnit_finite {v : XQ f} (h : Scalar.inUnit v = true) : ∃ q : ℚ, v = XQ.fin q := by
+  cases v with
+  | fin q => exact ⟨q, rfl⟩
+  | pinf => rw [XQ.inUnit_pinf] at h; cases h
+  | ninf => rw [XQ.inUnit_ninf] at h; cases h
+  | nan => rw [XQ.inUnit_nan] at h; cases h
+
+/-- `try_new` accepted: the three masses passed the range check -/
+theorem BOp.tryNew_ok_inUnit {b d u a : XQ f} {r : BOp (XQ f)} (h : BOp.tryNew b d u a = .ok r) :
+    Scalar.inUnit b = true ∧ Scalar.inUnit d = true ∧ Scalar.inUnit u = true := by
+  unfold BOp.tryNew BOp.checkSimplex checkUnit checkOne at h
+  by_cases h1 : Scalar.inUnit a = true <;> by_cases h2 : Scalar.isOne (b + d + u) = true <;>
+    by_cases hb : Scalar.inUnit b = true <;> by_cases hd : Scalar.inUnit d = true <;>
+    by_cases hu : Scalar.inUnit u = true <;> simp_all
+
+/-- three finite quotients by the common sum: the operands are finite, the sum is not 0 -/
+theorem XQ.norm3_fin {b d u : XQ f} {p q t : ℚ} (hb : b / (b + d + u) = XQ.fin p)
+    (hd : d / (b + d + u) = XQ.fin q) (hu : u / (b + d + u) = XQ.fin t) :
+    ∃ b' d' u' : ℚ, b = XQ.fin b' ∧ d = XQ.fin d' ∧ u = XQ.fin u' ∧ b' + d' + u' ≠ 0 ∧
+      p = b' / (b' + d' + u') ∧ q = d' / (b' + d' + u') ∧ t = u' / (b' + d' + u') := by
+  change XQ.div b (XQ.add (XQ.add b d) u) = XQ.fin p at hb
+  change XQ.div d (XQ.add (XQ.add b d) u) = XQ.fin q at hd
+  change XQ.div u (XQ.add (XQ.add b d) u) = XQ.fin t at hu
+  rcases b with b' | _ | _ | _ <;> rcases d with d' | _ | _ | _ <;> rcases u with u' | _ | _ | _ <;>
+    simp [XQ.add, XQ.div] at hb hd hu
+  by_cases hs : b' + d' + u' = 0
+  · rw [if_pos hs] at hb
+    split_ifs at hb
+  · rw [if_neg hs] at hb hd hu
+    exact ⟨b', d', u', rfl, rfl, rfl, hs, (XQ.fin.inj hb).symm, (XQ.fin.inj hd).symm, (XQ.fin.inj hu).symm⟩
+
+/-- the renormalisation `(b/s, d/s, u/s)`, `s = b + d + u`, keeps "no value below zero" -/
+theorem XQ.notNeg_norm3 {b d u : XQ f} (hb : XQ.NotNeg b) (hd : XQ.NotNeg d) (hu : XQ.NotNeg u) :
+    XQ.NotNeg (b / (b + d + u)) ∧ XQ.NotNeg (d / (b + d + u)) ∧ XQ.NotNeg (u / (b + d + u)) := by
+  have hs : XQ.NotNeg (b + d + u) := XQ.notNeg_add (XQ.notNeg_add hb hd) hu
+  exact ⟨XQ.notNeg_div hb hs, XQ.notNeg_div hd hs, XQ.notNeg_div hu hs⟩
+
+/-- the un-normalised uncertainty `ui + k` of `deduce` (not clamped by the code) -/
+def BOp.deduceRawU (w : BOp (XQ f)) (c0 c1 : XQ f × XQ f × XQ f) (ay : XQ f) : XQ f :=
+  w.b * c0.2.2 + w.d * c1.2.2 + w.u * (c0.2.2 * w.a + c1.2.2 * (Scalar.one - w.a)) + (BOp.deduceK w c0 c1 ay).1
+
+/-- `deduce` passes to the checked constructor the quotients `b/s`, `d/s`, `u/s`, `s = b + d + u`, of two clamped values
+    `b`, `d` (none below zero: finite `≥ 0`, `+∞` or NaN) and of the raw uncertainty; whenever that is not below zero
+    either, none of the three quotients is -/
+theorem BOp.deduce_notNeg (w : BOp (XQ f)) (c0 c1 : XQ f × XQ f × XQ f) (ay : XQ f) :
+    ∃ b d : XQ f,
+      (BOp.deduce w c0 c1 ay).1
+        = BOp.tryNew (b / (b + d + BOp.deduceRawU w c0 c1 ay)) (d / (b + d + BOp.deduceRawU w c0 c1 ay))
+            (BOp.deduceRawU w c0 c1 ay / (b + d + BOp.deduceRawU w c0 c1 ay)) ay ∧
+      XQ.NotNeg b ∧ XQ.NotNeg d ∧
+      (XQ.NotNeg (BOp.deduceRawU w c0 c1 ay) →
+        XQ.NotNeg (b / (b + d + BOp.deduceRawU w c0 c1 ay)) ∧ XQ.NotNeg (d / (b + d + BOp.deduceRawU w c0 c1 ay)) ∧
+        XQ.NotNeg (BOp.deduceRawU w c0 c1 ay / (b + d + BOp.deduceRawU w c0 c1 ay))) := by
+  unfold BOp.deduce BOp.deduceRawU
+  refine ⟨_, _, rfl, XQ.notNeg_clamp _, XQ.notNeg_clamp _, fun hu => ?_⟩
+  exact XQ.notNeg_norm3 (XQ.notNeg_clamp _) (XQ.notNeg_clamp _) hu
+
+/-- an ACCEPTED result of `deduce` whose raw uncertainty is not below zero is an exactly well-formed simplex: finite
+    masses, each `≥ 0`, adding up to exactly 1 (so `u ≤ 1`), whatever the operands -/
+theorem BOp.deduce_ok_wf (w : BOp (XQ f)) (c0 c1 : XQ f × XQ f × XQ f) (ay : XQ f) {r : BOp (XQ f)}
+    (hr : (BOp.deduce w c0 c1 ay).1 = .ok r) (hu : XQ.NotNeg (BOp.deduceRawU w c0 c1 ay)) :
+    ∃ p q t : ℚ, r.b = XQ.fin p ∧ r.d = XQ.fin q ∧ r.u = XQ.fin t ∧ 0 ≤ p ∧ 0 ≤ q ∧ 0 ≤ t ∧ p + q + t = 1 ∧ t ≤ 1 := by
+  obtain ⟨b, d, e, -, -, hn⟩ := BOp.deduce_notNeg w c0 c1 ay
+  obtain ⟨nb, nd, nu⟩ := hn hu
+  rw [e] at hr
+  obtain ⟨ib, id, iu⟩ := BOp.tryNew_ok_inUnit hr
+  obtain ⟨p, hp⟩ := XQ.inUnit_finite ib
+  obtain ⟨q, hq⟩ := XQ.inUnit_finite id
+  obtain ⟨t, ht⟩ := XQ.inUnit_finite iu
+  have hr' := BOp.tryNew_ok_inv hr
+  rw [hp] at nb; rw [hq] at nd; rw [ht] at nu
+  rw [XQ.notNeg_fin] at nb nd nu
+  obtain ⟨b', d', u', -, -, -, hs, ep, eq, et⟩ := XQ.norm3_fin hp hq ht
+  have hsum : p + q + t = 1 := by rw [ep, eq, et]; field_simp
+  refine ⟨p, q, t, ?_, ?_, ?_, nb, nd, nu, hsum, by linarith⟩
+  · rw [hr']; exact hp
+  · rw [hr']; exact hq
+  · rw [hr']; exact ht
 
 end SLV
